@@ -25,6 +25,8 @@ def load(prop):
 def _task(args):
     prop, hname, cfg, opts = args
     try:
+        import logging
+        logging.disable(logging.WARNING)
         sys.setrecursionlimit(20000)
         from symx.engine import Engine
         mod = load(prop)
@@ -98,6 +100,8 @@ def main(argv=None):
     a = ap.parse_args(argv)
     prop = a.prop.upper()
     sys.path.insert(0, ROOT)
+    import logging
+    logging.disable(logging.WARNING)
     if a.replay:
         return replay_file(prop, a.replay)
     seed = int(os.environ.get("VERIF_SEED", "0"))
@@ -183,10 +187,17 @@ def finish(prop, tier, seed, mod, results, pre, wall):
             continue
         seen.add(f["id"])
         print(f"KNOWN-FINDING: property={prop} {f['what']}")
-    for v in new_viol[:20]:
+    import re as _re
+    groups = {}
+    for v in new_viol:
+        cfgk = {k: val for k, val in v.get("config", {}).items() if not isinstance(val, (list, dict))}
+        key = (v.get("harness"), json.dumps(cfgk, sort_keys=True, default=str),
+               _re.sub(r"\d+", "#", str(v.get("obligation"))), str(v.get("exception"))[:80])
+        groups.setdefault(key, []).append(v)
+    for key, vs in sorted(groups.items(), key=lambda kv: -len(kv[1]))[:40]:
+        v = vs[0]
         print(f"VIOLATION property={prop} replay={v.get('replay')}")
-        print(f"  harness={v.get('harness')} config={v.get('config')} obligation={v.get('obligation')} "
-              f"exception={v.get('exception')} failed={v.get('failed')}")
+        print(f"  x{len(vs)} harness={key[0]} config={key[1]} obligation={key[2]} exception={key[3]}")
     for e in errors[:10]:
         print(f"HARNESS-ERROR kind={e.get('kind')} config={e.get('config')} msg={e.get('msg')}")
         if e.get("tb"):
